@@ -85,6 +85,7 @@ type inliner struct {
 	subst     map[types.Object]rope
 	exprRepl  map[ast.Node]rope
 	defConv   map[ast.Stmt]int // callee declarations turned into assignments (1: has a value, 0: drop)
+	unroll    map[ast.Stmt]*unrollInfo
 	infoOf    map[string]*types.Info
 	asgCount  map[*FuncInfo]map[types.Object]int
 	dest      *ast.File                       // file the text being produced lands in
@@ -168,7 +169,74 @@ func (in *inliner) exprText(x ast.Expr) rope {
 }
 
 // stmtText is textOf for a statement that may itself be a site.
+type unrollInfo struct {
+	site *inlSite
+	args []ast.Expr
+	elem types.Type
+	q    types.Qualifier
+}
+
+// unrolled emits one copy of the loop body per variadic argument.
+func (in *inliner) unrolled(rs *ast.RangeStmt, u *unrollInfo) rope {
+	info := in.infoOf[in.fname(rs.Pos())]
+	vid := rs.Value.(*ast.Ident)
+	vo := info.Defs[vid]
+	at := u.site.call.Pos()
+	g := func(f string, a ...any) rope { return glue(fmt.Sprintf(f, a...), at, u.site.id) }
+	// is the element variable written in the body?
+	mut := false
+	ast.Inspect(rs.Body, func(m ast.Node) bool {
+		switch t := m.(type) {
+		case *ast.AssignStmt:
+			for _, l := range t.Lhs {
+				if id, ok := ast.Unparen(l).(*ast.Ident); ok && info.Uses[id] == vo {
+					mut = true
+				}
+			}
+		case *ast.UnaryExpr:
+			if id, ok := ast.Unparen(t.X).(*ast.Ident); ok && t.Op == token.AND && info.Uses[id] == vo {
+				mut = true
+			}
+		case *ast.FuncLit:
+			ast.Inspect(t, func(k ast.Node) bool {
+				if id, ok := k.(*ast.Ident); ok && info.Uses[id] == vo {
+					mut = true
+				}
+				return true
+			})
+			return false
+		}
+		return true
+	})
+	var out rope
+	saved := contAsRet
+	contAsRet = true
+	defer func() { contAsRet = saved }()
+	cinfo := u.site.caller.Info()
+	for _, a := range u.args {
+		argText := in.exprText(a)
+		_, isIdent := ast.Unparen(a).(*ast.Ident)
+		sameType := cinfo.TypeOf(a) != nil && types.Identical(cinfo.TypeOf(a), u.elem)
+		out = append(out, g("{\n")...)
+		if isIdent && sameType && !mut && vo != nil {
+			in.subst[vo] = argText
+			out = append(out, in.conv(rs.Body.List, nil, u.site)...)
+			delete(in.subst, vo)
+		} else {
+			out = append(out, g("var %s %s = ", vid.Name, typeStr(u.elem, u.q))...)
+			out = append(out, argText...)
+			out = append(out, g("\n_ = %s\n", vid.Name)...)
+			out = append(out, in.conv(rs.Body.List, nil, u.site)...)
+		}
+		out = append(out, g("}\n")...)
+	}
+	return out
+}
+
 func (in *inliner) stmtText(st ast.Stmt) rope {
+	if u, ok := in.unroll[st]; ok {
+		return in.unrolled(st.(*ast.RangeStmt), u)
+	}
 	if mode, ok := in.defConv[st]; ok {
 		// the declaration of a callee local that was unified with a result target
 		switch t := st.(type) {
@@ -201,7 +269,44 @@ func (in *inliner) calleeBody(s *inlSite) (*ast.FuncType, *ast.BlockStmt, *ast.F
 	return s.callee.Decl.Type, s.callee.Decl.Body, s.callee.Decl.Recv
 }
 
+// contAsRet: while the body of an unrolled `for _, v := range variadic` loop is converted, an
+// unlabelled continue of that loop ends the iteration like a return ends a function.
+var contAsRet bool
+
+func isJump(n ast.Node) bool {
+	switch t := n.(type) {
+	case *ast.ReturnStmt:
+		return true
+	case *ast.BranchStmt:
+		return contAsRet && t.Tok == token.CONTINUE && t.Label == nil
+	}
+	return false
+}
+
 func containsReturn(n ast.Node) bool {
+	found := false
+	ast.Inspect(n, func(m ast.Node) bool {
+		switch m.(type) {
+		case *ast.FuncLit:
+			return false
+		case *ast.ForStmt, *ast.RangeStmt:
+			if contAsRet && m != n {
+				// a continue inside a nested loop belongs to that loop; a return there cannot be converted
+				if containsPlainReturn(m) {
+					found = true
+				}
+				return false
+			}
+		}
+		if isJump(m) {
+			found = true
+		}
+		return !found
+	})
+	return found
+}
+
+func containsPlainReturn(n ast.Node) bool {
 	found := false
 	ast.Inspect(n, func(m ast.Node) bool {
 		switch m.(type) {
@@ -215,6 +320,89 @@ func containsReturn(n ast.Node) bool {
 	return found
 }
 
+// variadicLoop: the callee's variadic parameter is used exactly once, as the operand of a
+// top-level `for _, v := range p` whose body leaves the loop only by falling through or by an
+// unlabelled continue in tail position — the loop can be unrolled over the call's arguments.
+func variadicLoop(info *types.Info, ft *ast.FuncType, body *ast.BlockStmt) *ast.RangeStmt {
+	if ft.Params == nil || len(ft.Params.List) == 0 {
+		return nil
+	}
+	last := ft.Params.List[len(ft.Params.List)-1]
+	if _, ok := last.Type.(*ast.Ellipsis); !ok || len(last.Names) != 1 {
+		return nil
+	}
+	po := info.Defs[last.Names[0]]
+	if po == nil {
+		return nil
+	}
+	uses := 0
+	ast.Inspect(body, func(m ast.Node) bool {
+		if id, ok := m.(*ast.Ident); ok && info.Uses[id] == po {
+			uses++
+		}
+		return true
+	})
+	if uses != 1 {
+		return nil
+	}
+	for _, st := range body.List {
+		rs, ok := st.(*ast.RangeStmt)
+		if !ok {
+			continue
+		}
+		id, ok := ast.Unparen(rs.X).(*ast.Ident)
+		if !ok || info.Uses[id] != po {
+			continue
+		}
+		if rs.Key != nil {
+			if k, ok := rs.Key.(*ast.Ident); !ok || k.Name != "_" {
+				return nil
+			}
+		}
+		if rs.Value == nil || rs.Tok != token.DEFINE {
+			return nil
+		}
+		if _, ok := rs.Value.(*ast.Ident); !ok {
+			return nil
+		}
+		bad := false
+		ast.Inspect(rs.Body, func(m ast.Node) bool {
+			switch t := m.(type) {
+			case *ast.FuncLit:
+				return false
+			case *ast.ForStmt, *ast.RangeStmt, *ast.SwitchStmt, *ast.TypeSwitchStmt, *ast.SelectStmt:
+				ast.Inspect(t, func(k ast.Node) bool {
+					switch k.(type) {
+					case *ast.ReturnStmt:
+						bad = true
+					}
+					return !bad
+				})
+				return false
+			case *ast.BranchStmt:
+				if t.Tok != token.CONTINUE || t.Label != nil {
+					bad = true
+				}
+			case *ast.ReturnStmt:
+				bad = true
+			}
+			return !bad
+		})
+		if bad {
+			return nil
+		}
+		saved := contAsRet
+		contAsRet = true
+		ok2 := tailReturns(rs.Body.List)
+		contAsRet = saved
+		if !ok2 {
+			return nil
+		}
+		return rs
+	}
+	return nil
+}
+
 // bodyOK: structural applicability of a callee body.
 func bodyOK(info *types.Info, ft *ast.FuncType, body *ast.BlockStmt) bool {
 	if ft.TypeParams != nil {
@@ -223,7 +411,9 @@ func bodyOK(info *types.Info, ft *ast.FuncType, body *ast.BlockStmt) bool {
 	if ft.Params != nil {
 		for _, f := range ft.Params.List {
 			if _, ok := f.Type.(*ast.Ellipsis); ok {
-				return false
+				if variadicLoop(info, ft, body) == nil {
+					return false
+				}
 			}
 		}
 	}
@@ -286,9 +476,10 @@ func bodyOK(info *types.Info, ft *ast.FuncType, body *ast.BlockStmt) bool {
 // tailReturns: every return of the list is in a position conv can restructure.
 func tailReturns(list []ast.Stmt) bool {
 	for i, s := range list {
-		switch t := s.(type) {
-		case *ast.ReturnStmt:
+		if isJump(s) {
 			return true
+		}
+		switch t := s.(type) {
 		case *ast.IfStmt:
 			if !containsReturn(t) {
 				continue
@@ -338,9 +529,10 @@ func tailReturns(list []ast.Stmt) bool {
 
 func alwaysReturns(list []ast.Stmt) bool {
 	for _, s := range list {
-		switch t := s.(type) {
-		case *ast.ReturnStmt:
+		if isJump(s) {
 			return true
+		}
+		switch t := s.(type) {
 		case *ast.IfStmt:
 			var elseList []ast.Stmt
 			switch e := t.Else.(type) {
@@ -387,6 +579,9 @@ func (in *inliner) conv(list []ast.Stmt, lhs []string, s *inlSite) rope {
 	var out rope
 	nl := func() { out = append(out, glue("\n", s.call.Pos(), s.id)...) }
 	for i, st := range list {
+		if _, isBr := st.(*ast.BranchStmt); isBr && isJump(st) {
+			return out
+		}
 		switch t := st.(type) {
 		case *ast.ReturnStmt:
 			allBlank := true
@@ -1208,7 +1403,33 @@ func (in *inliner) emitSite0(s *inlSite) (rope, bool) {
 			binds = append(binds, bind{name, typeStr(rt, q), val, sel.X, ro})
 		}
 	}
-	if sig == nil || sig.Params().Len() != len(s.call.Args) {
+	if sig == nil {
+		return nil, false
+	}
+	// a variadic callee: the loop over the variadic parameter is unrolled over the arguments
+	var vloop *ast.RangeStmt
+	nfixed := sig.Params().Len()
+	if sig.Variadic() {
+		vloop = variadicLoop(info, ft, body)
+		if vloop == nil || s.call.Ellipsis != token.NoPos || len(s.call.Args) < sig.Params().Len()-1 {
+			return nil, false
+		}
+		nfixed = sig.Params().Len() - 1
+		// the arguments are read where the loop stands, not at the call: only stable operands
+		for _, a := range s.call.Args[nfixed:] {
+			stable := true
+			ast.Inspect(a, func(m ast.Node) bool {
+				switch m.(type) {
+				case *ast.CallExpr, *ast.FuncLit, *ast.IndexExpr, *ast.SliceExpr, *ast.TypeAssertExpr, *ast.StarExpr:
+					stable = false
+				}
+				return stable
+			})
+			if !stable {
+				return nil, false
+			}
+		}
+	} else if sig.Params().Len() != len(s.call.Args) {
 		return nil, false
 	}
 	s.nres = sig.Results().Len()
@@ -1255,6 +1476,9 @@ func (in *inliner) emitSite0(s *inlSite) (rope, bool) {
 				names = []*ast.Ident{nil}
 			}
 			for _, n := range names {
+				if pi >= nfixed {
+					break // the variadic parameter is consumed by the unrolled loop
+				}
 				pt := sig.Params().At(pi).Type()
 				arg := s.call.Args[pi]
 				pi++
@@ -1326,12 +1550,15 @@ func (in *inliner) emitSite0(s *inlSite) (rope, bool) {
 		}
 		if ft.Params != nil {
 			for _, f := range ft.Params.List {
-				if len(f.Names) == 0 {
+				if len(f.Names) == 0 && pi < nfixed {
 					pids = append(pids, nil)
 					args = append(args, s.call.Args[pi])
 					pi++
 				}
 				for _, n := range f.Names {
+					if pi >= nfixed {
+						break
+					}
 					pids = append(pids, n)
 					args = append(args, s.call.Args[pi])
 					pi++
@@ -1616,6 +1843,10 @@ func (in *inliner) emitSite0(s *inlSite) (rope, bool) {
 		// results are dropped: conv emits blank assignments
 	}
 
+	if vloop != nil {
+		in.unroll[vloop] = &unrollInfo{site: s, args: s.call.Args[nfixed:], elem: sig.Params().At(nfixed).Type().(*types.Slice).Elem(), q: q}
+		defer delete(in.unroll, vloop)
+	}
 	// ---- assemble ----
 	in.siteStack = append(in.siteStack, s)
 	for o, r := range newSubst {
@@ -2068,7 +2299,7 @@ func (fm *fileMap) lookup(off int) (ovSeg, bool) {
 // overlay cannot be type-checked.
 func Normalise(p *Prog, o LoadOpts, protected map[string]bool) (*Prog, []string) {
 	in := &inliner{p: p, protected: protected, src: map[string][]byte{}, sites: map[ast.Stmt]*inlSite{},
-		imports: map[*ast.File]map[string]string{}, used: map[int]bool{}, subst: map[types.Object]rope{}, exprRepl: map[ast.Node]rope{}, defConv: map[ast.Stmt]int{},
+		imports: map[*ast.File]map[string]string{}, used: map[int]bool{}, subst: map[types.Object]rope{}, exprRepl: map[ast.Node]rope{}, defConv: map[ast.Stmt]int{}, unroll: map[ast.Stmt]*unrollInfo{},
 		infoOf: map[string]*types.Info{}, asgCount: map[*FuncInfo]map[types.Object]int{}}
 	for _, fn := range p.funcList {
 		name := in.fname(fn.File.Pos())
